@@ -1,6 +1,845 @@
-//! C18 — not implemented yet.
-use crate::report::{Cfg, Report};
+//! C18 — distributions are a pure function of current parameters and the RNG seed (DESIGN §3 C18).
+//!
+//! Events: every constructor / setter / `update` call (value or panic) in a random mutation history,
+//! and after every step the observable behaviour (pdf/pmf at 16 probe points, mean, var, a seeded
+//! stream of draws) of the mutated object next to a freshly constructed twin.
+//! Oracle: the harness keeps its own model of the parameters that should be current (last accepted
+//! values) and a validity table taken from the constructors' documented domains; twin comparison is
+//! bitwise (NaN = NaN). A rejected call is compared object-before vs object-after.
+//! No FFI is used here: the lite workload runs under Miri (data-race detector on the thread part).
+use crate::gen::Rng;
+use crate::report::{guard, is_budget_panic, jf, par_cases, same_bits, Cfg, Hasher, Report};
+use compute::distributions::*;
+use serde_json::{json, Value};
 
-pub fn run(_cfg: &Cfg, rep: &mut Report) {
-    rep.inconclusive("monitor for C18 not implemented".to_string());
+/// `true` would demand that a rejected bulk update leaves *every* parameter untouched. The property
+/// text only demands that no object ever holds an out-of-domain parameter and that the object is a
+/// pure function of its current parameters, so a bulk update that applied its valid prefix before
+/// panicking is recorded as evidence (`notes.rejected_update.valid_prefix_applied`) but not as a violation.
+const STRICT_ATOMIC_UPDATE: bool = false;
+
+const BUDGET: u64 = 100_000;
+
+#[derive(Clone, Copy, PartialEq, Eq, Debug)]
+enum Kind {
+    Bernoulli,
+    Beta,
+    Binomial,
+    ChiSquared,
+    DiscreteUniform,
+    Exponential,
+    Gamma,
+    Gumbel,
+    Normal,
+    Pareto,
+    Poisson,
+    T,
+    Uniform,
+}
+use Kind as K;
+
+const KINDS: [Kind; 13] = [K::Bernoulli, K::Beta, K::Binomial, K::ChiSquared, K::DiscreteUniform, K::Exponential, K::Gamma, K::Gumbel, K::Normal, K::Pareto, K::Poisson, K::T, K::Uniform];
+
+#[derive(Clone, Copy)]
+enum Obj {
+    Bernoulli(Bernoulli),
+    Beta(Beta),
+    Binomial(Binomial),
+    ChiSquared(ChiSquared),
+    DiscreteUniform(DiscreteUniform),
+    Exponential(Exponential),
+    Gamma(Gamma),
+    Gumbel(Gumbel),
+    Normal(Normal),
+    Pareto(Pareto),
+    Poisson(Poisson),
+    T(T),
+    Uniform(Uniform),
+}
+
+impl Kind {
+    fn name(self) -> &'static str {
+        match self {
+            K::Bernoulli => "bernoulli",
+            K::Beta => "beta",
+            K::Binomial => "binomial",
+            K::ChiSquared => "chi2",
+            K::DiscreteUniform => "discrete_uniform",
+            K::Exponential => "exponential",
+            K::Gamma => "gamma",
+            K::Gumbel => "gumbel",
+            K::Normal => "normal",
+            K::Pareto => "pareto",
+            K::Poisson => "poisson",
+            K::T => "t",
+            K::Uniform => "uniform",
+        }
+    }
+    fn setters(self) -> &'static [&'static str] {
+        match self {
+            K::Bernoulli => &["set_p"],
+            K::Beta => &["set_alpha", "set_beta"],
+            K::Binomial => &["set_n", "set_p"],
+            K::ChiSquared => &["set_dof"],
+            K::DiscreteUniform => &["set_lower", "set_upper"],
+            K::Exponential => &["set_lambda"],
+            K::Gamma => &["set_alpha", "set_beta"],
+            K::Gumbel => &["set_mu", "set_beta"],
+            K::Normal => &["set_mu", "set_sigma"],
+            K::Pareto => &["set_alpha", "set_minval"],
+            K::Poisson => &["set_lambda"],
+            K::T => &["set_dof"],
+            K::Uniform => &["set_lower", "set_upper"],
+        }
+    }
+    fn nparams(self) -> usize {
+        self.setters().len()
+    }
+    fn two_sided(self) -> bool {
+        matches!(self, K::Uniform | K::DiscreteUniform)
+    }
+    fn discrete(self) -> bool {
+        matches!(self, K::Bernoulli | K::Binomial | K::DiscreteUniform | K::Poisson)
+    }
+    /// integer-typed parameter (setter takes u64 / usize / i64, `update` casts from f64)
+    fn integer(self, i: usize) -> bool {
+        matches!((self, i), (K::Binomial, 0) | (K::ChiSquared, 0) | (K::DiscreteUniform, _))
+    }
+}
+
+/// Validity table: the constructors' documented domains.
+fn valid(kind: Kind, p: &[f64]) -> bool {
+    match kind {
+        K::Bernoulli => (0.0..=1.0).contains(&p[0]),
+        K::Beta | K::Gamma | K::Pareto => p[0] > 0.0 && p[1] > 0.0,
+        K::Binomial => p[0] >= 0.0 && (0.0..=1.0).contains(&p[1]),
+        K::ChiSquared => p[0] >= 1.0,
+        K::DiscreteUniform | K::Uniform => p[0] <= p[1],
+        K::Exponential | K::Poisson | K::T => p[0] > 0.0,
+        K::Gumbel => p[1] > 0.0,
+        K::Normal => p[1] >= 0.0,
+    }
+}
+
+fn construct(kind: Kind, p: &[f64]) -> Obj {
+    match kind {
+        K::Bernoulli => Obj::Bernoulli(Bernoulli::new(p[0])),
+        K::Beta => Obj::Beta(Beta::new(p[0], p[1])),
+        K::Binomial => Obj::Binomial(Binomial::new(p[0] as u64, p[1])),
+        K::ChiSquared => Obj::ChiSquared(ChiSquared::new(p[0] as usize)),
+        K::DiscreteUniform => Obj::DiscreteUniform(DiscreteUniform::new(p[0] as i64, p[1] as i64)),
+        K::Exponential => Obj::Exponential(Exponential::new(p[0])),
+        K::Gamma => Obj::Gamma(Gamma::new(p[0], p[1])),
+        K::Gumbel => Obj::Gumbel(Gumbel::new(p[0], p[1])),
+        K::Normal => Obj::Normal(Normal::new(p[0], p[1])),
+        K::Pareto => Obj::Pareto(Pareto::new(p[0], p[1])),
+        K::Poisson => Obj::Poisson(Poisson::new(p[0])),
+        K::T => Obj::T(T::new(p[0])),
+        K::Uniform => Obj::Uniform(Uniform::new(p[0], p[1])),
+    }
+}
+
+impl Obj {
+    fn set(&mut self, i: usize, v: f64) {
+        match (self, i) {
+            (Obj::Bernoulli(d), _) => {
+                d.set_p(v);
+            }
+            (Obj::Beta(d), 0) => {
+                d.set_alpha(v);
+            }
+            (Obj::Beta(d), _) => {
+                d.set_beta(v);
+            }
+            (Obj::Binomial(d), 0) => {
+                d.set_n(v as u64);
+            }
+            (Obj::Binomial(d), _) => {
+                d.set_p(v);
+            }
+            (Obj::ChiSquared(d), _) => {
+                d.set_dof(v as usize);
+            }
+            (Obj::DiscreteUniform(d), 0) => {
+                d.set_lower(v as i64);
+            }
+            (Obj::DiscreteUniform(d), _) => {
+                d.set_upper(v as i64);
+            }
+            (Obj::Exponential(d), _) => {
+                d.set_lambda(v);
+            }
+            (Obj::Gamma(d), 0) => {
+                d.set_alpha(v);
+            }
+            (Obj::Gamma(d), _) => {
+                d.set_beta(v);
+            }
+            (Obj::Gumbel(d), 0) => {
+                d.set_mu(v);
+            }
+            (Obj::Gumbel(d), _) => {
+                d.set_beta(v);
+            }
+            (Obj::Normal(d), 0) => {
+                d.set_mu(v);
+            }
+            (Obj::Normal(d), _) => {
+                d.set_sigma(v);
+            }
+            (Obj::Pareto(d), 0) => {
+                d.set_alpha(v);
+            }
+            (Obj::Pareto(d), _) => {
+                d.set_minval(v);
+            }
+            (Obj::Poisson(d), _) => {
+                d.set_lambda(v);
+            }
+            (Obj::T(d), _) => {
+                d.set_dof(v);
+            }
+            (Obj::Uniform(d), 0) => {
+                d.set_lower(v);
+            }
+            (Obj::Uniform(d), _) => {
+                d.set_upper(v);
+            }
+        }
+    }
+    fn update(&mut self, p: &[f64]) {
+        match self {
+            Obj::Bernoulli(d) => d.update(p),
+            Obj::Beta(d) => d.update(p),
+            Obj::Binomial(d) => d.update(p),
+            Obj::ChiSquared(d) => d.update(p),
+            Obj::DiscreteUniform(d) => d.update(p),
+            Obj::Exponential(d) => d.update(p),
+            Obj::Gamma(d) => d.update(p),
+            Obj::Gumbel(d) => d.update(p),
+            Obj::Normal(d) => d.update(p),
+            Obj::Pareto(d) => d.update(p),
+            Obj::Poisson(d) => d.update(p),
+            Obj::T(d) => d.update(p),
+            Obj::Uniform(d) => d.update(p),
+        }
+    }
+    fn density(&self, x: f64) -> f64 {
+        match self {
+            Obj::Bernoulli(d) => d.pmf(x as i64),
+            Obj::Beta(d) => d.pdf(x),
+            Obj::Binomial(d) => d.pmf(x as i64),
+            Obj::ChiSquared(d) => d.pdf(x),
+            Obj::DiscreteUniform(d) => d.pmf(x as i64),
+            Obj::Exponential(d) => d.pdf(x),
+            Obj::Gamma(d) => d.pdf(x),
+            Obj::Gumbel(d) => d.pdf(x),
+            Obj::Normal(d) => d.pdf(x),
+            Obj::Pareto(d) => d.pdf(x),
+            Obj::Poisson(d) => d.pmf(x as i64),
+            Obj::T(d) => d.pdf(x),
+            Obj::Uniform(d) => d.pdf(x),
+        }
+    }
+    fn mean(&self) -> f64 {
+        match self {
+            Obj::Bernoulli(d) => d.mean(),
+            Obj::Beta(d) => d.mean(),
+            Obj::Binomial(d) => d.mean(),
+            Obj::ChiSquared(d) => d.mean(),
+            Obj::DiscreteUniform(d) => d.mean(),
+            Obj::Exponential(d) => d.mean(),
+            Obj::Gamma(d) => d.mean(),
+            Obj::Gumbel(d) => d.mean(),
+            Obj::Normal(d) => d.mean(),
+            Obj::Pareto(d) => d.mean(),
+            Obj::Poisson(d) => d.mean(),
+            Obj::T(d) => d.mean(),
+            Obj::Uniform(d) => d.mean(),
+        }
+    }
+    fn var(&self) -> f64 {
+        match self {
+            Obj::Bernoulli(d) => d.var(),
+            Obj::Beta(d) => d.var(),
+            Obj::Binomial(d) => d.var(),
+            Obj::ChiSquared(d) => d.var(),
+            Obj::DiscreteUniform(d) => d.var(),
+            Obj::Exponential(d) => d.var(),
+            Obj::Gamma(d) => d.var(),
+            Obj::Gumbel(d) => d.var(),
+            Obj::Normal(d) => d.var(),
+            Obj::Pareto(d) => d.var(),
+            Obj::Poisson(d) => d.var(),
+            Obj::T(d) => d.var(),
+            Obj::Uniform(d) => d.var(),
+        }
+    }
+    fn sample(&self) -> f64 {
+        match self {
+            Obj::Bernoulli(d) => d.sample(),
+            Obj::Beta(d) => d.sample(),
+            Obj::Binomial(d) => d.sample(),
+            Obj::ChiSquared(d) => d.sample(),
+            Obj::DiscreteUniform(d) => d.sample(),
+            Obj::Exponential(d) => d.sample(),
+            Obj::Gamma(d) => d.sample(),
+            Obj::Gumbel(d) => d.sample(),
+            Obj::Normal(d) => d.sample(),
+            Obj::Pareto(d) => d.sample(),
+            Obj::Poisson(d) => d.sample(),
+            Obj::T(d) => d.sample(),
+            Obj::Uniform(d) => d.sample(),
+        }
+    }
+}
+
+// ---------------------------------------------------------------------------------------------
+// observation
+
+type Val = Result<f64, String>;
+
+#[derive(Clone)]
+struct Obs {
+    at: Vec<f64>,
+    density: Vec<Val>,
+    mean: Val,
+    var: Val,
+}
+
+fn val_eq(a: &Val, b: &Val) -> bool {
+    match (a, b) {
+        (Ok(x), Ok(y)) => same_bits(*x, *y),
+        (Err(x), Err(y)) => x == y || (is_budget_panic(x) && is_budget_panic(y)),
+        _ => false,
+    }
+}
+fn jval(v: &Val) -> Value {
+    match v {
+        Ok(x) => crate::report::jnum(*x),
+        Err(e) => json!({"panic": e}),
+    }
+}
+
+/// 16 probe points derived from the model parameters (the same points for object and twin).
+fn probes(kind: Kind, p: &[f64]) -> Vec<f64> {
+    let a = p[0];
+    let b = *p.last().unwrap();
+    if kind == K::Binomial {
+        // inside the support only: pmf outside 0..=n panics on the unchanged tree (C02's business)
+        let n = a as u64;
+        let ks = [0u64, 1, 2, 3, 5, 8, 13, 21, 34, 55, n, n / 2, n / 3, n.saturating_sub(1), n / 2 + 1, 2 * n / 3];
+        return ks.iter().map(|&k| (k % (n + 1)) as f64).collect();
+    }
+    if kind.discrete() {
+        let mid = ((a + b) / 2.0).floor();
+        return vec![-1.0, 0.0, 1.0, 2.0, 3.0, 5.0, 8.0, 13.0, 21.0, 50.0, a.floor(), b.floor(), mid, a.floor() - 1.0, b.floor() + 1.0, (a + 2.0 * b).floor()];
+    }
+    vec![-3.0, -1.0, -0.25, 0.0, 0.1, 0.5, 0.9, 1.0, 1.5, 2.5, 7.0, 30.0, a, b, 0.5 * (a + b), a + 2.0 * b]
+}
+
+fn observe(kind: Kind, p: &[f64], o: &Obj) -> Obs {
+    let at = probes(kind, p);
+    Obs { density: at.iter().map(|&x| guard(|| o.density(x))).collect(), at, mean: guard(|| o.mean()), var: guard(|| o.var()) }
+}
+
+type Stream = Result<Vec<f64>, String>;
+
+fn draws(rep: &mut Report, o: &Obj, seed: u64, n: usize) -> Stream {
+    rep.absorb_hooks(); // per-site counters restart, so the budget is per stream
+    compute::verif_hooks::set_budget(BUDGET);
+    alea::set_seed(seed);
+    let r = guard(|| (0..n).map(|_| o.sample()).collect::<Vec<f64>>());
+    compute::verif_hooks::set_budget(u64::MAX);
+    rep.absorb_hooks();
+    r
+}
+
+fn stream_eq(a: &Stream, b: &Stream) -> bool {
+    match (a, b) {
+        (Ok(x), Ok(y)) => crate::report::same_bits_slice(x, y),
+        (Err(x), Err(y)) => x == y || (is_budget_panic(x) && is_budget_panic(y)),
+        _ => false,
+    }
+}
+fn jstream(s: &Stream) -> Value {
+    match s {
+        Ok(v) => jf(&v[..v.len().min(8)]),
+        Err(e) => json!({"panic": e}),
+    }
+}
+
+struct Ctx<'a> {
+    kind: Kind,
+    history: &'a [String],
+    n_draws: usize,
+}
+
+/// Compare object and twin; returns true if every observable agreed.
+fn compare(rep: &mut Report, cx: &Ctx, regime: &str, model: &[f64], obj: &Obj, twin: &Obj, seed: u64) -> bool {
+    let (a, b) = (observe(cx.kind, model, obj), observe(cx.kind, model, twin));
+    let head = |what: Value| json!({"distribution": cx.kind.name(), "history": cx.history, "parameters_expected_current": jf(model), "difference": what});
+    let mut all = true;
+    let bad = (0..a.at.len()).find(|&i| !val_eq(&a.density[i], &b.density[i]));
+    all &= rep.check("C18.twin.density", regime, bad.is_none(), || {
+        let i = bad.unwrap();
+        head(json!({"at": a.at[i], "mutated_object": jval(&a.density[i]), "fresh_twin": jval(&b.density[i])}))
+    });
+    all &= rep.check("C18.twin.mean", regime, val_eq(&a.mean, &b.mean), || head(json!({"mutated_object": jval(&a.mean), "fresh_twin": jval(&b.mean)})));
+    all &= rep.check("C18.twin.var", regime, val_eq(&a.var, &b.var), || head(json!({"mutated_object": jval(&a.var), "fresh_twin": jval(&b.var)})));
+    let sa = draws(rep, obj, seed, cx.n_draws);
+    let sb = draws(rep, twin, seed, cx.n_draws);
+    if matches!(&sa, Err(e) if is_budget_panic(e)) {
+        rep.note_add("streams_cut_by_iteration_budget(both sides compared as equal behaviour)", 1.0);
+    }
+    all &= rep.check("C18.twin.samples", regime, stream_eq(&sa, &sb), || head(json!({"seed": seed, "draws": cx.n_draws, "mutated_object_first": jstream(&sa), "fresh_twin_first": jstream(&sb),
+        "mean_of_stream": [sa.as_ref().ok().map(|v| v.iter().sum::<f64>() / v.len() as f64), sb.as_ref().ok().map(|v| v.iter().sum::<f64>() / v.len() as f64)]})));
+    all
+}
+
+fn obs_eq(a: &Obs, b: &Obs) -> bool {
+    a.density.iter().zip(&b.density).all(|(x, y)| val_eq(x, y)) && val_eq(&a.mean, &b.mean) && val_eq(&a.var, &b.var)
+}
+
+// ---------------------------------------------------------------------------------------------
+// generators
+
+/// (low, high, log-scale?) of the valid range used for parameter `i`. Shape parameters stay >= 0.4
+/// (T: dof/2 >= 0.35) so that no verdict depends on the gamma sampler's behaviour below shape 1/3 (C03).
+fn range(kind: Kind, i: usize) -> (f64, f64, bool) {
+    match (kind, i) {
+        (K::Bernoulli, _) | (K::Binomial, 1) => (0.0, 1.0, false),
+        (K::Beta, _) => (0.4, 50.0, true),
+        (K::Binomial, _) => (0.0, 2000.0, false),
+        (K::ChiSquared, _) => (1.0, 200.0, false),
+        (K::DiscreteUniform, _) | (K::Uniform, _) => (-1000.0, 1000.0, false),
+        (K::Exponential, _) => (1e-3, 1e3, true),
+        (K::Gamma, 0) => (0.4, 100.0, true),
+        (K::Gamma, _) => (1e-3, 1e3, true),
+        (K::Gumbel, 0) | (K::Normal, 0) => (-100.0, 100.0, false),
+        (K::Gumbel, _) => (1e-3, 1e3, true),
+        (K::Normal, _) => (0.0, 1e3, false),
+        (K::Pareto, 0) => (0.1, 50.0, true),
+        (K::Pareto, _) => (1e-3, 1e3, true),
+        (K::Poisson, _) => (1e-2, 500.0, true),
+        (K::T, _) => (0.7, 200.0, true),
+    }
+}
+
+fn draw_in(rng: &mut Rng, kind: Kind, i: usize, lo: f64, hi: f64) -> f64 {
+    let (_, _, log) = range(kind, i);
+    let v = if kind.integer(i) {
+        rng.int(lo.ceil() as i64, hi.floor() as i64) as f64
+    } else if log && lo > 0.0 {
+        rng.log_range(lo, hi)
+    } else {
+        rng.range(lo, hi)
+    };
+    // boundary values of closed domains now and then
+    if !kind.integer(i) && rng.chance(0.06) {
+        if lo == range(kind, i).0 && matches!((kind, i), (K::Bernoulli, _) | (K::Binomial, 1) | (K::Normal, 1)) {
+            return lo;
+        }
+        if hi == 1.0 && matches!((kind, i), (K::Bernoulli, _) | (K::Binomial, 1)) {
+            return 1.0;
+        }
+    }
+    v
+}
+
+fn initial(rng: &mut Rng, kind: Kind) -> Vec<f64> {
+    let mut p: Vec<f64> = (0..kind.nparams())
+        .map(|i| {
+            let (lo, hi, _) = range(kind, i);
+            draw_in(rng, kind, i, lo, hi)
+        })
+        .collect();
+    if kind.two_sided() && p[0] > p[1] {
+        p.swap(0, 1);
+    }
+    if kind.two_sided() && p[0] == p[1] {
+        p[1] += 1.0;
+    }
+    p
+}
+
+/// A valid new value for parameter `i` given the rest of the model, on the requested side of the
+/// current value when that side is non-empty. Returns (value, "up" | "down" | "same").
+fn valid_target(rng: &mut Rng, kind: Kind, i: usize, model: &[f64]) -> (f64, &'static str) {
+    let up = rng.bool();
+    let (mut lo, mut hi, _) = range(kind, i);
+    if kind.two_sided() {
+        if i == 0 {
+            hi = model[1]; // lower <= upper
+        } else {
+            lo = model[0];
+        }
+    }
+    let cur = model[i];
+    let step = if kind.integer(i) { 1.0 } else { 0.0 };
+    let (a, b) = if up { (cur + step, hi) } else { (lo, cur - step) };
+    let (a, b) = if a > b || (a == b && !kind.integer(i) && a == cur) { if up { (lo, cur - step) } else { (cur + step, hi) } } else { (a, b) };
+    if a > b {
+        return (cur, "same");
+    }
+    let v = draw_in(rng, kind, i, a, b);
+    (v, if v > cur { "up" } else if v < cur { "down" } else { "same" })
+}
+
+/// An invalid value for parameter `i` (None if the parameter has no invalid non-NaN value).
+fn invalid_target(rng: &mut Rng, kind: Kind, i: usize, model: &[f64]) -> Option<f64> {
+    let pick = |rng: &mut Rng, xs: &[f64]| *rng.choose(xs);
+    match (kind, i) {
+        (K::Bernoulli, _) | (K::Binomial, 1) => Some(if rng.bool() { pick(rng, &[-0.1, -1.0, -5e-324, -1e300, f64::NEG_INFINITY]) } else { pick(rng, &[1.1, 1.0 + f64::EPSILON, 2.0, 1e300, f64::INFINITY]) }),
+        (K::Binomial, _) | (K::Gumbel, 0) | (K::Normal, 0) => None,
+        (K::ChiSquared, _) => Some(0.0),
+        (K::Normal, _) => Some(pick(rng, &[-1.0, -1e-3, -5e-324, -1e300, f64::NEG_INFINITY])),
+        (K::DiscreteUniform, 0) => Some(model[1] + rng.int(1, 50) as f64),
+        (K::DiscreteUniform, _) => Some(model[0] - rng.int(1, 50) as f64),
+        (K::Uniform, 0) => Some(model[1] + rng.log_range(1e-6, 1e3)),
+        (K::Uniform, _) => Some(model[0] - rng.log_range(1e-6, 1e3)),
+        _ => Some(pick(rng, &[0.0, -0.0, -1.0, -1e-3, -5e-324, -1e300, f64::NEG_INFINITY])),
+    }
+}
+
+// ---------------------------------------------------------------------------------------------
+// one history
+
+fn history(cfg: &Cfg, rep: &mut Report, rng: &mut Rng, kind: Kind) {
+    let name = kind.name();
+    let n_draws = if cfg.miri() { 8 } else { 64 };
+    let mut hist: Vec<String> = Vec::new();
+    let mut hash = Hasher::new().s(name);
+    let mut changed = false;
+
+    // constructor, valid and invalid
+    let mut model = initial(rng, kind);
+    hist.push(format!("new({:?})", model));
+    let ctor_regime = format!("{}:ctor", name);
+    rep.case(&ctor_regime);
+    let mut obj = match guard(|| construct(kind, &model)) {
+        Ok(o) => {
+            rep.check("C18.ctor.accepts_valid", &ctor_regime, true, || json!(null));
+            o
+        }
+        Err(msg) => {
+            rep.check("C18.ctor.accepts_valid", &ctor_regime, false, || json!({"distribution": name, "parameters": jf(&model), "panic": msg}));
+            return;
+        }
+    };
+    if !cfg.miri() || rng.chance(0.3) {
+        for i in 0..kind.nparams() {
+            if let Some(bad) = invalid_target(rng, kind, i, &model) {
+                let mut p = model.clone();
+                p[i] = bad;
+                let r = guard(|| construct(kind, &p));
+                rep.check("C18.ctor.rejects_invalid", &format!("{}:ctor:{}", name, &kind.setters()[i][4..]), r.is_err(), || json!({"distribution": name, "parameters": jf(&p), "expected": "panic", "observed": "object constructed"}));
+                break;
+            }
+        }
+    }
+    {
+        let twin = construct(kind, &model);
+        let cx = Ctx { kind, history: &hist, n_draws };
+        compare(rep, &cx, &ctor_regime, &model, &obj, &twin, rng.u64() | 1);
+    }
+
+    let steps = if cfg.miri() { rng.usize(2, 3) } else { rng.usize(1, 20) };
+    for _ in 0..steps {
+        let seed = rng.u64() | 1;
+        let use_update = rng.chance(0.35);
+        let want_invalid = rng.chance(0.3);
+        if !use_update {
+            // ---------------- single setter
+            let i = rng.usize(0, kind.nparams() - 1);
+            let setter = kind.setters()[i];
+            let regime = format!("{}:{}", name, setter);
+            let bad = if want_invalid { invalid_target(rng, kind, i, &model) } else { None };
+            rep.case(&regime);
+            if let Some(v) = bad {
+                hist.push(format!("{}({:?}) [invalid]", setter, v));
+                hash = hash.s(setter).f(v);
+                let before = observe(kind, &model, &obj);
+                let mut o2 = obj;
+                let r = guard(|| o2.set(i, v));
+                let rejected = r.is_err();
+                rep.check("C18.setter.rejects_invalid", &regime, rejected, || json!({"distribution": name, "history": hist, "expected": "panic", "observed": "value accepted"}));
+                if rejected {
+                    // the object the caller still holds after the unwinding panic: `o2`
+                    let after = observe(kind, &model, &o2);
+                    rep.check("C18.rejected.unchanged", &regime, obs_eq(&before, &after), || json!({"distribution": name, "history": hist, "parameters_expected_current": jf(&model), "observed": "object changed by a rejected call"}));
+                }
+                // continue from a clean object either way
+                obj = construct(kind, &model);
+            } else {
+                let (v, side) = valid_target(rng, kind, i, &model);
+                hist.push(format!("{}({:?})", setter, v));
+                hash = hash.s(setter).f(v);
+                rep.seen(&format!("cover:{}:{}", regime, side), 1);
+                let mut next = model.clone();
+                next[i] = v;
+                debug_assert!(valid(kind, &next));
+                let mut o2 = obj;
+                match guard(|| o2.set(i, v)) {
+                    Err(msg) => {
+                        rep.check("C18.setter.accepts_valid", &regime, false, || json!({"distribution": name, "history": hist, "parameters_before": jf(&model), "panic": msg, "expected": "accepted: the resulting parameters are valid"}));
+                        obj = construct(kind, &model);
+                    }
+                    Ok(()) => {
+                        rep.check("C18.setter.accepts_valid", &regime, true, || json!(null));
+                        changed |= v != model[i];
+                        model = next;
+                        obj = o2;
+                        let twin = construct(kind, &model);
+                        let cx = Ctx { kind, history: &hist, n_draws };
+                        if !compare(rep, &cx, &regime, &model, &obj, &twin, seed) {
+                            obj = twin; // resynchronise so that one stale step is reported once, under its own regime
+                        }
+                    }
+                }
+            }
+        } else {
+            // ---------------- bulk update
+            let np = kind.nparams();
+            if want_invalid {
+                // choose the first invalid position; positions before it get valid targets
+                let candidates: Vec<usize> = (0..np).filter(|&i| invalid_target(&mut rng.clone(), kind, i, &model).is_some()).collect();
+                if candidates.is_empty() {
+                    continue;
+                }
+                let bad_at = *rng.choose(&candidates);
+                let mut p = model.clone();
+                if kind.two_sided() {
+                    // lower > upper: either lower beyond the old upper bound (rejected at once) or inside the
+                    // old interval with the new upper below it (lower is applied before the upper is rejected)
+                    if bad_at == 0 {
+                        p[0] = model[1] + 1.0 + rng.int(0, 50) as f64;
+                        p[1] = p[0] - 1.0 - rng.int(0, 5) as f64;
+                    } else {
+                        let (lo, hi) = (model[0], model[1]);
+                        p[0] = if kind.integer(0) { rng.int(lo as i64, hi as i64) as f64 } else { rng.range(lo, hi) };
+                        p[1] = p[0] - 1.0 - rng.int(0, 50) as f64;
+                    }
+                } else {
+                    for i in 0..np {
+                        if i == bad_at {
+                            p[i] = invalid_target(rng, kind, i, &model).unwrap();
+                        } else {
+                            p[i] = valid_target(rng, kind, i, &model).0;
+                        }
+                    }
+                }
+                let regime = format!("{}:update:{}", name, if bad_at == 0 { "first-invalid" } else { "valid-prefix" });
+                rep.case(&regime);
+                hist.push(format!("update({:?}) [invalid]", p));
+                hash = hash.s("update").fs(&p);
+                let before = observe(kind, &model, &obj);
+                let mut o2 = obj;
+                let r = guard(|| o2.update(&p));
+                let rejected = r.is_err();
+                rep.check("C18.update.rejects_invalid", &regime, rejected, || json!({"distribution": name, "history": hist, "expected": "panic", "observed": "vector accepted"}));
+                if rejected {
+                    let after = observe(kind, &model, &o2);
+                    if obs_eq(&before, &after) {
+                        rep.check("C18.rejected.unchanged", &regime, true, || json!(null));
+                    } else {
+                        // the valid prefix may have been applied: the object must then be exactly the twin of those parameters
+                        let mut pre = model.clone();
+                        pre[..bad_at].copy_from_slice(&p[..bad_at]);
+                        let pre_ok = valid(kind, &pre) && obs_eq(&observe(kind, &model, &construct(kind, &pre)), &after);
+                        rep.note_add("rejected_update.valid_prefix_applied", 1.0);
+                        rep.check("C18.rejected.unchanged", &regime, pre_ok && !STRICT_ATOMIC_UPDATE, || {
+                            json!({"distribution": name, "history": hist, "parameters_before": jf(&model), "prefix_applied_would_be": jf(&pre),
+                                   "observed": if pre_ok { "the valid prefix of the rejected vector was applied" } else { "object is neither unchanged nor the twin of the valid prefix" }})
+                        });
+                    }
+                }
+                obj = construct(kind, &model);
+            } else {
+                // valid target vector
+                let mut p = model.clone();
+                let mut tag = String::from("update");
+                if kind.two_sided() {
+                    let (lo, hi) = (model[0], model[1]);
+                    let w = if kind.integer(0) { rng.int(1, 40) as f64 } else { rng.log_range(1e-3, 100.0) };
+                    let gap = if kind.integer(0) { rng.int(1, 40) as f64 } else { rng.log_range(1e-3, 100.0) };
+                    match rng.usize(0, 3) {
+                        0 => {
+                            p[0] = hi + gap;
+                            p[1] = p[0] + w;
+                            tag = "target-above-old-interval".into();
+                        }
+                        1 => {
+                            p[1] = lo - gap;
+                            p[0] = p[1] - w;
+                            tag = "target-below-old-interval".into();
+                        }
+                        2 => {
+                            p[0] = lo - gap;
+                            p[1] = hi + w;
+                            tag = "target-contains-old-interval".into();
+                        }
+                        _ => {
+                            let mid = if kind.integer(0) { ((lo + hi) / 2.0).floor() } else { 0.5 * (lo + hi) };
+                            p[0] = mid;
+                            p[1] = hi + if rng.bool() { w } else { 0.0 };
+                            tag = "target-overlaps-old-interval".into();
+                        }
+                    }
+                } else {
+                    for i in 0..np {
+                        let (v, side) = valid_target(rng, kind, i, &model);
+                        p[i] = v;
+                        rep.seen(&format!("cover:{}:update:{}:{}", name, &kind.setters()[i][4..], side), 1);
+                    }
+                }
+                let regime = if kind.two_sided() { format!("{}:{}", name, tag) } else { format!("{}:update", name) };
+                rep.case(&regime);
+                hist.push(format!("update({:?})", p));
+                hash = hash.s("update").fs(&p);
+                debug_assert!(valid(kind, &p));
+                let mut o2 = obj;
+                match guard(|| o2.update(&p)) {
+                    Err(msg) => {
+                        rep.check("C18.update.accepts_valid", &regime, false, || json!({"distribution": name, "history": hist, "parameters_before": jf(&model), "target": jf(&p), "panic": msg, "expected": "accepted: the target vector is valid"}));
+                        obj = construct(kind, &model);
+                    }
+                    Ok(()) => {
+                        rep.check("C18.update.accepts_valid", &regime, true, || json!(null));
+                        changed |= p != model;
+                        model = p;
+                        obj = o2;
+                        let twin = construct(kind, &model);
+                        let cx = Ctx { kind, history: &hist, n_draws };
+                        if !compare(rep, &cx, &regime, &model, &obj, &twin, seed) {
+                            obj = twin;
+                        }
+                    }
+                }
+            }
+        }
+    }
+    rep.distinct(hash.finish(), changed);
+    rep.sample(|| json!({"distribution": name, "history": hist, "final_parameters": jf(&model)}));
+}
+
+// ---------------------------------------------------------------------------------------------
+// isolation: other live objects, other threads
+
+fn isolation_objects(cfg: &Cfg, rep: &mut Report, rng: &mut Rng, kind: Kind) {
+    let n = if cfg.miri() { 8 } else { 64 };
+    let p = initial(rng, kind);
+    let seed = rng.u64() | 1;
+    let obj = construct(kind, &p);
+    let base = draws(rep, &obj, seed, n);
+    let again = draws(rep, &obj, seed, n);
+    let regime = format!("{}:k=0", kind.name());
+    rep.case(&regime);
+    rep.check("C18.reproducible", &regime, stream_eq(&base, &again), || json!({"distribution": kind.name(), "parameters": jf(&p), "seed": seed, "first": jstream(&base), "second": jstream(&again)}));
+    for &k in if cfg.miri() { &[1usize][..] } else { &[1usize, 50][..] } {
+        // k other live objects, created and sampled before the seed is set; they stay alive during the draw
+        let others: Vec<Obj> = (0..k)
+            .map(|j| {
+                let kk = KINDS[(j + rng.usize(0, 12)) % 13];
+                construct(kk, &initial(rng, kk))
+            })
+            .collect();
+        for o in &others {
+            let _ = guard(|| o.sample());
+        }
+        let fresh = construct(kind, &p);
+        let s1 = draws(rep, &obj, seed, n);
+        let s2 = draws(rep, &fresh, seed, n);
+        let regime = format!("{}:k={}", kind.name(), k);
+        rep.case(&regime);
+        rep.check("C18.isolation.objects", &regime, stream_eq(&base, &s1) && stream_eq(&base, &s2), || json!({"distribution": kind.name(), "parameters": jf(&p), "seed": seed, "alone": jstream(&base), "with_others_old_object": jstream(&s1), "with_others_new_object": jstream(&s2)}));
+        std::hint::black_box(&others);
+    }
+}
+
+fn isolation_threads(cfg: &Cfg, rep: &mut Report, rng: &mut Rng) {
+    let n = if cfg.miri() { 6 } else { 256 };
+    // cheap samplers under Miri
+    let pool: &[Kind] = if cfg.miri() { &[K::Normal, K::Uniform, K::Exponential, K::Bernoulli, K::Gumbel, K::Pareto, K::DiscreteUniform, K::Normal] } else { &KINDS };
+    let jobs: Vec<(Kind, Vec<f64>, u64)> = (0..8)
+        .map(|t| {
+            let k = pool[(t + rng.usize(0, pool.len() - 1)) % pool.len()];
+            (k, initial(rng, k), rng.u64() | 1)
+        })
+        .collect();
+    // single-thread reference streams
+    let reference: Vec<Stream> = jobs.iter().map(|(k, p, s)| draws(rep, &construct(*k, p), *s, n)).collect();
+    let barrier = std::sync::Barrier::new(8);
+    let got: Vec<Stream> = std::thread::scope(|sc| {
+        let hs: Vec<_> = jobs
+            .iter()
+            .map(|(k, p, s)| {
+                let barrier = &barrier;
+                sc.spawn(move || {
+                    crate::report::install_panic_hook();
+                    let o = construct(*k, p);
+                    barrier.wait();
+                    alea::set_seed(*s);
+                    guard(|| {
+                        (0..n)
+                            .map(|j| {
+                                if j % 2 == 0 {
+                                    std::thread::yield_now();
+                                }
+                                o.sample()
+                            })
+                            .collect::<Vec<f64>>()
+                    })
+                })
+            })
+            .collect();
+        hs.into_iter().map(|h| h.join().expect("sampling thread")).collect()
+    });
+    for t in 0..8 {
+        let regime = "threads=8";
+        rep.case(regime);
+        rep.check("C18.isolation.threads", regime, stream_eq(&reference[t], &got[t]), || json!({"distribution": jobs[t].0.name(), "parameters": jf(&jobs[t].1), "seed": jobs[t].2, "single_thread": jstream(&reference[t]), "concurrent": jstream(&got[t])}));
+    }
+}
+
+pub fn run(cfg: &Cfg, rep: &mut Report) {
+    rep.rule = "random histories: constructor + 1..20 mutations (65% single setter, 35% update; 30% of the steps carry an invalid value; valid targets on a random side of the current value; two-sided bounds: targets above / below / containing / overlapping the old interval), 13 distributions round-robin; after every accepted step the object is compared with a fresh twin (16 probe points, mean, var, 64 seeded draws); then isolation cases (k = 0, 1, 50 other live objects; 8 concurrent threads). non-trivial = at least one accepted mutation changed a parameter; distinct by (distribution, sequence of calls and values)".into();
+    rep.assume("NaN is not used as an invalid probe: constructors and setters agree in accepting it");
+    rep.assume("integer-typed parameters (Binomial n, ChiSquared dof, DiscreteUniform bounds) are mutated with integer values only; update() receives them as integer-valued f64 (its f64→integer cast cannot express other invalid values than the typed setter)");
+    rep.assume("shape parameters are kept >= 0.4 (T: dof >= 0.7) so that verdicts do not depend on the gamma sampler below shape 1/3 (C03); a stream cut by the iteration budget on BOTH object and twin is equal behaviour");
+    rep.assume("Binomial pmf is probed inside 0..=n only (outside it panics on any object, C02)");
+    rep.assume("a rejected bulk update may have applied its valid prefix (recorded in notes.rejected_update.valid_prefix_applied); demanded is that the object then equals the twin of exactly those parameters — the property forbids out-of-domain parameters, not non-atomic rejection");
+    let n_hist = cfg.pick(13 * 200, 13 * 3000, 13);
+    par_cases(cfg, rep, 1, n_hist, |i, rng, rep| {
+        history(cfg, rep, rng, KINDS[i % 13]);
+    });
+    let n_iso = cfg.pick(13 * 4, 13 * 40, 3);
+    par_cases(cfg, rep, 2, n_iso, |i, rng, rep| {
+        isolation_objects(cfg, rep, rng, KINDS[(i * 5) % 13]);
+    });
+    let n_thr = cfg.pick(16, 200, 1);
+    // sequential: each case spawns its own 8 sampling threads
+    let one = Cfg { threads: 1, ..cfg.clone() };
+    par_cases(&one, rep, 3, n_thr, |_i, rng, rep| {
+        isolation_threads(cfg, rep, rng);
+    });
+    rep.require("threads=8", 8);
+    if !cfg.lite {
+        for k in KINDS {
+            rep.require(&format!("{}:ctor", k.name()), 1);
+            rep.require(&format!("{}:k=50", k.name()), 1);
+            for s in k.setters() {
+                rep.require(&format!("{}:{}", k.name(), s), 1);
+                rep.require(&format!("cover:{}:{}:up", k.name(), s), 1);
+                rep.require(&format!("cover:{}:{}:down", k.name(), s), 1);
+            }
+            if k.two_sided() {
+                for t in ["target-above-old-interval", "target-below-old-interval", "target-contains-old-interval", "target-overlaps-old-interval"] {
+                    rep.require(&format!("{}:{}", k.name(), t), 1);
+                }
+            } else {
+                rep.require(&format!("{}:update", k.name()), 1);
+            }
+        }
+    }
 }
